@@ -64,6 +64,7 @@ func (c *Ctx) readerFuncs(r *Result) []*ssa.Function {
 
 func ruleC07Idx(c *Ctx, r *Result) {
 	per := map[string][]undecidedItem{}
+	perUpper := map[string][]undecidedItem{}
 	n := 0
 	for _, fn := range c.readerFuncs(r) {
 		for _, a := range c.AccessesIn(fn) {
@@ -72,10 +73,16 @@ func ruleC07Idx(c *Ctx, r *Result) {
 				r.Hold("C07.2", c.Name(fn)+"#"+a.Kind, c.InstrPos(a.In), "")
 			} else {
 				per[c.Name(fn)] = append(per[c.Name(fn)], undecidedItem{c.InstrPos(a.In), a.Why})
+				if a.UpperFails {
+					perUpper[c.Name(fn)] = append(perUpper[c.Name(fn)], undecidedItem{c.InstrPos(a.In), a.UpperWhy})
+				}
 			}
 		}
 	}
 	r.ApplyBaseline(verifDirGlobal, "C07.2", "index-or-slice", per)
+	// second ratchet: the sites whose upper bound is not established, counted separately - a site that is not decided because
+	// its index "may be negative" still has its length test checked
+	r.ApplyBaselineFile(verifDirGlobal, "C07.2-upper", "C07.2", "index-or-slice-upper-bound", perUpper)
 	r.Floor("C07.2", 800)
 }
 
